@@ -875,7 +875,7 @@ def r03_15(run, model):
                 a, b = (S.norm_ws(run.facts.text(CHECK, x["sp"])) for x in c["args"])
                 if a == b:
                     n += 1
-                    run.ob("R03.15", f"{fname}|constraint TypeEqual({a}, {b}) relates two things", False, site(CHECK, c["sp"]),
+                    run.ob("R03.15", f"{fname}|a TypeEqual constraint relates two things", False, site(CHECK, c["sp"]),
                            "both sides are the same expression: the operand type is unconstrained",
                            witness="let q = -p; with p: P (a struct) is accepted; the Go has `var q P = -p`")
         for m in S.find(f.body, "Match"):
@@ -889,9 +889,10 @@ def r03_15(run, model):
                     continue  # e.g. the match that only picks the result type
                 n += 1
                 ok = any(k not in ("TypeEqual",) for k in kinds) or any(re.search(r"numeric|is_integer|is_float|arith", S.callee_name(c) or "", re.I) for c in S.calls(arm["body"]))
-                run.ob("R03.15", f"{fname}|{'/'.join(hit)} restricts the operand type", ok, site(CHECK, arm["sp"]),
-                       f"constraints generated: {kinds or 'none'}",
-                       witness="let q = p * p; (p: struct), true + false, p < p are accepted; the emitted Go is rejected by the Go compiler")
+                for op_ in hit:   # one obligation per operator: merging or splitting arms changes no key
+                    run.ob("R03.15", f"{fname}|{op_} restricts the operand type", ok, site(CHECK, arm["sp"]),
+                           f"constraints generated: {kinds or 'none'}",
+                           witness="let q = p * p; (p: struct), true + false, p < p are accepted; the emitted Go is rejected by the Go compiler")
     run.floor("operator arms of the typer", n, 3)
 
 
